@@ -37,3 +37,8 @@ Proof. reflexivity. Qed.
 Lemma gen_cache_get_key_checked : gen_cache_get_checks_key = true.
 Proof. reflexivity. Qed.
 
+(* a non-empty-prefix scan of the metadata slab is one atomic step: keys and values are copied under one
+   acquisition of the shard lock *)
+Lemma gen_scan_single_step : gen_scan_one_lock = true.
+Proof. reflexivity. Qed.
+
